@@ -302,3 +302,55 @@ def register(add):
         "watchdogs (inconclusive, never a violation).",
         "DESIGN.md 3/C20",
     )
+
+
+# Additions made when the workloads were widened against independently seeded changes
+# (appended to the level text by gen_manifest.py).
+COMMON = (" Every third shard runs with DEBUG logging on and every record formatted (logging is a workload "
+          "dimension, rtmon/logmode.py).")
+EXTRA = {
+    "C01": "",
+    "C03": " A fifth payload pattern makes the randomised data field walk through every ordered pair of reserved / "
+           "reserved^0x20 bytes; every DATA frame is also fed to the running receiver as the reference's wire image "
+           "(decode direction end to end); the stuffing helpers are compared with the reference on all 2-byte strings "
+           "and all strings up to length 4 over the escape-adjacent alphabet; the running-host part is repeated with "
+           "DEBUG logging on.",
+    "C05": " After a failure the host's own RST is written and another send is issued before the RSTACK arrives: still "
+           "no DATA frame may be written.",
+    "C07": " Keyword calls are also made in reversed / shuffled order and mixed with a positional prefix; an "
+           "invalidCommand frame answering pending commands of several response layouts must be decoded with its own "
+           "schema and end the call with InvalidCommandError at once.",
+    "C09": " Duplicates are produced both in a read of their own and within one read (an RSTACK doubled in one read "
+           "must not fail bring-up); a late-booting socket NCP may also read the queued RST once it is up (boot RSTACK "
+           "and answer RSTACK in one read); the sequence ends with stop_ezsp + startup_reset + write_config on the same "
+           "connection (ControllerApplication._reset), which must reset the NCP and renegotiate from the legacy format; "
+           "when the receive callback raises the fake transport closes and reports connection_lost(exc) as asyncio "
+           "transports do.",
+    "C10": " Failure kinds include an NCP that rejects the next one or three DATA frames with a NAK and is silent from "
+           "then on; every post-registration crash point is repeated after a history in which the NCP already failed "
+           "once (ERROR / power-on RSTACK) before any application was attached.",
+    "C11": " One or two further reset requests are made on the same gateway after the first ended by completion, "
+           "timeout, failure code or a failing RST write (write error, port closing): each must write its own RST and end "
+           "by RSTACK(0x0B) or the reset timeout; an NCP DATA frame may arrive between the RST and the RSTACK; a host DATA "
+           "frame may still be unacknowledged at the reset (its ACK in the same read as the RSTACK, or just before); "
+           "numbering is also checked after a completed start-up wait following prior traffic.",
+    "C12": " Refusals and failed confirmations are repeated with every other status code of the reply's status family; "
+           "confirmations of every outgoing-message type carrying the request's tag but another destination / table "
+           "index must not complete it.",
+    "C13": " Mixed shards keep applications of several protocol versions alive in one process and alternate callbacks "
+           "between them; the node's own network address is changed mid-run (by replacing node_info, and in place).",
+    "C14": " A link key that is not the last one may be refused by the NCP (the others must still make the round trip); "
+           "frame counter 0 is written over an NCP that holds a non-zero counter from an earlier network.",
+    "C15": " Start-up is also run with several coordinator endpoints that share groups; rejections are repeated with "
+           "every status code of the reply's family.",
+    "C16": " Rejections carry status codes cycling through the reply's whole status family.",
+    "C17": " 'Quiet' shards deliver nothing but the operations' own completing events, so the same status value repeats "
+           "with nothing in between; 'overlap' shards run scan, poll, ZLL scan and a foreign add/remove_callback with "
+           "every interleaving of their start and end events (non-LIFO lifetimes): each list command returns exactly "
+           "the results delivered between its issue and its completion and nothing stays registered.",
+    "C20": " Wrappers are also looked up once (on the owner loop, on another loop, in a thread without a loop) and called "
+           "later from elsewhere; calls are made while the owner's loop is open but not running (not started, between two "
+           "run phases) and must execute once it runs; a quarter of the coroutine calls are fire-and-forget and must "
+           "execute all the same; coroutine calls handed to the owner's loop before force_stop() - running or still "
+           "queued behind a busy loop - must come back to their callers.",
+}
